@@ -1,6 +1,6 @@
 """Texts for MANIFEST.json."""
 BASELINE_OFF = "cd /repo && go test -vet=off -count=1 ./..."
-HOOK_COMMITS = []
+HOOK_COMMITS = ["170ceabda4c0e4edd653ee0af5b8059dda7c750b", "1edb0ce1dcb27fd26ab6f5b17b534b9fd40c28c7"]
 NOTES = ("All checks share ./check (python driver). Each run rebuilds the Go harness against /repo's working tree, "
          "re-dumps tables into coq/gen, rebuilds the Coq proofs that depend on them (full .vo), evaluates the model and the "
          "executable property on implementation-observed cases inside Coq, and writes evidence/<id>.json. "
